@@ -4,6 +4,12 @@ from fractions import Fraction as F
 from .. import core, fixedq
 
 
+KERAS3_PASS = True   # thorough tier repeats the tie under the pinned Keras 3
+# the float32 transfer theorems (QKV.Props.C01F) are proof obligations of C01 as well
+PROP_MODULES = ["QKV.Props.C01", "QKV.Props.C01F"]
+PROP_PREFIXES = ["C01_"]   # C01_f32_* in Props/C01F.lean (its C01F_* aliases are duplicates)
+
+
 def run(run: core.Run, tier: str):
   recs = fixedq.collect(run, tier, "C01")
   run.extra["rule"] = (
@@ -66,3 +72,8 @@ def run(run: core.Run, tier: str):
                     {"config": r.label, "listed_not_reachable": [str(v) for v in unreachable[:4]]},
                     mirrored=r.mirrored)
   run.extra["configurations"] = len(recs)
+  # ---- float32 layer: rnd32 / qbitsF / qreluF / qlinearF vs TensorFlow bit for bit, inside and outside
+  # the envelope; inside it the exact model must be hit (Props.C01F transfer theorems)
+  from . import c01f
+  c01f.run(run, tier)
+  run.extra["rule"] += "; PLUS the float32 transcription tie of QKV.Model.F32: " + run.extra.pop("rule_f32", "")
